@@ -314,3 +314,73 @@ func viewOf(e *typeEntry, v reflect.Value, level string) (*lib.Val, bool) {
 	}
 	return val, true
 }
+
+func safeDumpLive(n datamodel.Node, typed bool) string {
+	var s string
+	err := lib.Safely(func() error { s = dumpLive(n, typed); return nil })
+	if err != nil {
+		return "panic:other"
+	}
+	if strings.Contains(s, "!") {
+		if strings.Contains(s, "!len") || strings.Contains(s, "!lookup") {
+			return "inconsistent"
+		}
+		return "viewerr"
+	}
+	return s
+}
+
+func encodeNode(cdc string, n datamodel.Node) string {
+	var b []byte
+	err := lib.Safely(func() error {
+		var err error
+		b, err = ipld.Encode(n, encoderFor(cdc))
+		return err
+	})
+	if err != nil {
+		if lib.IsPanic(err) {
+			return "panic:other"
+		}
+		return "encerr"
+	}
+	nb := basicnode.Prototype.Any.NewBuilder()
+	if err := lib.Safely(func() error { return decoderFor(cdc)(nb, bytes.NewReader(b)) }); err != nil {
+		return "undecodable"
+	}
+	return lib.Dump(nb.Build())
+}
+
+// opLive: one node from Wrap(&v, t) is read (both levels, lengths, lookups, encoding of its
+// representation), the Go value behind the pointer is replaced by another value of the same type,
+// and the SAME node and the same representation node are read again, plus a representation node
+// obtained afresh from the old node.
+func opLive(e *typeEntry, cdc, gv1, gv2 string) string {
+	v := parseGv(gv1, e.goType())
+	ptr := v.Addr().Interface()
+	var node schema.TypedNode
+	err := lib.Safely(func() error { node = bindnode.Wrap(ptr, e.schemaType()); return nil })
+	if err != nil {
+		return errClass(err)
+	}
+	var rn datamodel.Node
+	if err := lib.Safely(func() error { rn = node.Representation(); return nil }); err != nil {
+		return "panic:other"
+	}
+	read := func(withFresh bool) string {
+		parts := []string{safeDumpLive(node, true), safeDumpLive(rn, false)}
+		if withFresh {
+			var rn2 datamodel.Node
+			if err := lib.Safely(func() error { rn2 = node.Representation(); return nil }); err != nil {
+				parts = append(parts, "panic:other")
+			} else {
+				parts = append(parts, safeDumpLive(rn2, false))
+			}
+		}
+		parts = append(parts, encodeNode(cdc, rn))
+		return strings.Join(parts, "|")
+	}
+	first := read(false)
+	v.Set(parseGv(gv2, e.goType()))
+	second := read(true)
+	return "ok:" + first + ";" + second
+}
